@@ -9,6 +9,7 @@ from __future__ import annotations
 from fractions import Fraction
 
 from .. import api, engine
+from .. import histories as H
 from ..ref import codec as C
 
 ID = "C12"
@@ -144,10 +145,15 @@ def near_boundary(desc, kind, value) -> bool:
 
 
 def plan(tier):
-    return [{"part": p, "parts": 32} for p in range(32)]
+    shards = [{"part": p, "parts": 32} for p in range(32)]
+    shards += H.plan_shards(['nested-revisions'])
+    return shards
 
 
 def cases(shard, tier):
+    if shard.get("kind") == "call-histories":
+        yield from H.cases_of(shard)
+        return
     for i, (src, desc) in enumerate(constant_types()):
         if i % shard["parts"] == shard["part"]:
             yield {"type_src": src, "desc": desc}
@@ -164,6 +170,8 @@ def read_one(type_src, inits):
 
 
 def check_case(case, R: engine.Acc):
+    if case.get("kind") == "call-history":
+        return H.check_history(case["label"], R, H.project_constants, 'constant-depends-on-earlier-calls', 'a constant holds the value of its initializer as evaluated over the definitions of THIS call')
     desc, type_src = case["desc"], case["type_src"]
     inits = initializers(desc)
     if "init_index" in case:
